@@ -128,6 +128,7 @@ def lit_negzero(a):
 # Parser__parse_expr in contracts/c06_parser.py).
 
 import ast
+from typing import Literal
 
 
 class PyOperand(ast.expr):
@@ -166,3 +167,65 @@ def stub_parse_expr(orig):
             return e.parsed
         return orig(self, e)
     return _parse_expr
+
+
+class PyIntConstant(ast.Constant):
+    lineno: int
+    col_offset: int
+    end_lineno: int
+    end_col_offset: int
+    value: int
+
+
+class PyFloatConstant(ast.Constant):
+    lineno: int
+    col_offset: int
+    end_lineno: int
+    end_col_offset: int
+    value: float
+
+
+class PyConstant_1e23(PyFloatConstant):
+    value: Literal[1e23]
+
+
+class PyConstant_0_1(PyFloatConstant):
+    value: Literal[0.1]
+
+
+class PyConstant_inf(PyFloatConstant):
+    value: Literal[1e999]
+
+
+class PyConstant_tiny(PyFloatConstant):
+    value: Literal[0.0]
+
+
+def is_int_spelling(s):
+    """a Python integer literal: digits only (no '.', no exponent, no sign)"""
+    g = dec_groups(s)
+    return g[0] and not g[1] and dlen(g[3]) == 0 and dlen(g[5]) == 0
+
+
+def is_float_spelling(s):
+    """a Python float literal of the decimal grammar: has a '.' or an exponent, no sign"""
+    g = dec_groups(s)
+    return g[0] and not g[1] and (dlen(g[3]) > 0 or dlen(g[5]) > 0)
+
+
+def parse_constant_pre(e, spelling):
+    """e.value is the value CPython gives the constant spelled `spelling`"""
+    v = e.value
+    return {
+        'python_value': ((is_int_spelling(spelling) and v == dval(dec_groups(spelling)[2], 10)) if cls_name(v) == 'int' else
+                         (is_float_spelling(spelling) and float_rounds_to(den10(spelling), v))),
+    }
+
+
+def parse_constant_post(spelling, r):
+    return {
+        'is_literal': is_lit(r),
+        'wellformed': lit_ok(r) if is_lit(r) else False,
+        # the literal node denotes exactly the number written, not the double Python rounded it to
+        'denotes': (lit_value(r) == den10(spelling)) if is_lit(r) else False,
+    }
